@@ -25,34 +25,34 @@ CHECKS = {
    "Trusted: reference decoder. Keep-alive (0x8D) is checked by C20. Which of two unseparated initiators writes the single DISCONNECT is not judged.",
    "DESIGN.md section 3 C15"),
  "C07": ("fault_enumeration",
-   "exhaustive enumeration of the grid base scenario x step index x termination cause x Stop held/handled x role (plus every byte offset inside the packet being delivered for peer close / read error), teardown oracle over the application log and owned futures",
+   "exhaustive enumeration of the grid base scenario x step index x termination cause x Stop held/handled x role (plus every byte offset inside the packet being delivered for peer close / read error), teardown oracle over the application log and owned futures; thorough tier additionally a coverage-guided libFuzzer campaign (target `sink`) over byte-encoded histories judged by the same oracle",
    "Nine base scenarios (idle; publishes in flight with gated handlers; inbound payload half received with a reader waiting; outbound sends awaiting acknowledgement; senders parked on a full window; ready() parked on write back-pressure; outbound stream half written; "
    "gated protocol handler with packets buffered; mixed) x every step index x 12-17 causes per role x Stop notification handled at once or held open x four roles; byte offsets 1..39 inside inbound packets for peer close / read error. "
    "Exactly one Stop of the class the cause demands and no control call after it, every owned future resolved, no clean end of an incomplete payload, no handler cancelled before the held Stop was handled and none left running, connection task finished, no panic.",
    "Trusted: as C03. Keep-alive expiry is exercised by C20; a failing back-pressure notification does not end the connection in this library and is only required not to break teardown.",
    "DESIGN.md section 3 C07"),
  "C08": ("exploration",
-   "stateful proptest histories of sink operations and inbound traffic plus deterministic scenarios; whole-stream parse with the reference decoder and a supplied-bytes oracle",
+   "stateful proptest histories of sink operations and inbound traffic plus deterministic scenarios; whole-stream parse with the reference decoder and a supplied-bytes oracle; thorough tier additionally a coverage-guided libFuzzer campaign (target `sink`) over byte-encoded histories judged by the same oracle",
    "Plain, failing (over-long topic/user property, over the peer's Maximum Packet Size, id in use, send while a payload is owed) and streamed sends (QoS 0/1, arbitrary chunkings, under-/over-delivery, drops, failing starts) interleaved with inbound PUBLISH/PINGREQ/SUBSCRIBE "
    "whose handlers may be held and released mid-stream, acknowledgements, back-pressure stalls, close and fault paths, four roles. The complete output parses as whole packets (incomplete last frame only for a live stream in progress or after the connection was aborted); "
    "every request frame belongs to exactly one operation that did not fail locally and carries the supplied payload; streamed payload bytes on the wire are exactly the accepted chunks in order; successful sends are on the wire.",
    "Trusted: reference decoder; whether the connection survives a response falling due inside a streamed payload is not judged.",
    "DESIGN.md section 3 C08"),
  "C06": ("exploration",
-   "stateful proptest histories plus a deterministic deviation matrix and an id wrap-around run; acknowledgement-log oracle",
+   "stateful proptest histories plus a deterministic deviation matrix and an id wrap-around run; acknowledgement-log oracle; thorough tier additionally a coverage-guided libFuzzer campaign (target `sink`) over byte-encoded histories judged by the same oracle",
    "Deviation matrix (every send kind x every acknowledgement type x position 0..2, wrong id, duplicate, reordered, unsolicited; four roles), one run of 65545 automatic ids across the 65535->1 wrap per role, and generated histories "
    "of sends with automatic/caller-chosen ids, locally failing sends, singly/batched acknowledgements with generated v5 contents and at most one deviation. A send completes Ok only after the peer sent the right acknowledgement for its id and returns its contents; "
    "outstanding ids non-zero and distinct; a deviation gives exactly one Stop(Protocol) and resolves all pending futures; a correct peer completes everything, keeps the connection and restores credit().",
    "Trusted: as C03; out-of-order PUBCOMPs among several released exchanges are not judged.",
    "DESIGN.md section 3 C06"),
  "C05": ("exploration",
-   "stateful proptest histories with a harness-owned sender schedule; counter model on the spec-decoded wire",
+   "stateful proptest histories with a harness-owned sender schedule; counter model on the spec-decoded wire; thorough tier additionally a coverage-guided libFuzzer campaign (target `sink`) over byte-encoded histories judged by the same oracle",
    "Histories of 3..25 ops for send limits 1..4 (established via config, HandshakeAck::max_send, or the peer's Receive Maximum lower/higher than the configured value): create / poll / drop sink futures in any order, "
    "'send again on completion' loops, acknowledgements singly or batched, QoS 2 release and receipt drops, stalled-peer episodes. After every op: unacknowledged QoS>0 PUBLISH frames on the wire <= limit, and credit() == limit - outstanding after settles.",
    "Trusted: as C03; only the awaiting send APIs are exercised, as the statement requires.",
    "DESIGN.md section 3 C05"),
  "C13": ("exploration",
-   "stateful proptest histories weighted to cancellations and back-pressure toggles; liveness judged at deterministic quiescence",
+   "stateful proptest histories weighted to cancellations and back-pressure toggles; liveness judged at deterministic quiescence; thorough tier additionally a coverage-guided libFuzzer campaign (target `sink`) over byte-encoded histories judged by the same oracle",
    "Same op set as C05 weighted towards dropping parked / woken futures and stall toggles, with a peer that acknowledges everything correctly; final phase lifts the stall, releases receipts, acknowledges everything, polls every survivor until nothing changes; "
    "then no future may be pending while slots are free and back-pressure is off, none may have failed, the connection must be alive.",
    "Trusted: as C03. 'Forever' is decidable because the harness owns transport and schedule.",
@@ -152,6 +152,11 @@ NOT_YET = {}
 THOROUGH = {
     "C01": "./check C01 thorough && ./fuzz/run.sh rt5 300 C01",
     "C02": "./check C02 thorough && ./fuzz/run.sh dec_v5 300 C02 && ./fuzz/run.sh dec_v3 300 C02 && ./fuzz/run.sh sniff 120 C02",
+    "C05": "./check C05 thorough && ./fuzz/run.sh sink 300 C05",
+    "C06": "./check C06 thorough && ./fuzz/run.sh sink 300 C06",
+    "C07": "./check C07 thorough && ./fuzz/run.sh sink 300 C07",
+    "C08": "./check C08 thorough && ./fuzz/run.sh sink 300 C08",
+    "C13": "./check C13 thorough && ./fuzz/run.sh sink 300 C13",
 }
 
 
